@@ -1,11 +1,12 @@
 #!/bin/sh
 # usage: try_seed.sh <patch> <prop> [prop...]  -- apply a patch to /repo, run quick checks, undo
 p="$1"; shift
-cd /repo || exit 9
+R=${SA_REPO:-/repo}; export SA_REPO=$R
+cd $R || exit 9
 if ! git apply --check "$p" 2>/dev/null; then echo "PATCH DOES NOT APPLY: $p"; exit 9; fi
 git apply "$p"
 cd /verif
 for prop in "$@"; do
   /venv/bin/python -m sa check "$prop" | grep -v "^KNOWN-FINDING" | cut -c1-400
 done
-cd /repo && git checkout -- . && git status --short | head -3
+cd $R && git checkout -- . && git status --short | head -3
